@@ -28,7 +28,10 @@ def parseMod (s : String) : Option Mod :=
   | [f, k] => do
     let f ← f.toNat?
     let k ← k.toNat?
-    if f ≤ 4 ∧ k < 8 then some ⟨f, k⟩ else none
+    -- fault 5 exists only for reverse proxy key 6: not a provisioning fault — when the configuration
+    -- ends, an upgraded stream through the handler is open and closing it FAILS (Cleanup reports an
+    -- error; see C03/CleanupSteps.lean)
+    if (f ≤ 4 ∨ (f = 5 ∧ k = 6)) ∧ k < 8 then some ⟨f, k⟩ else none
   | _ => none
 
 def parseMods (s : String) : Option (List Mod) :=
@@ -45,7 +48,10 @@ def parseApp (s : String) : Option App :=
     if n ≤ 3 ∧ t < 1000 ∧ l.all (· < 11) ∧ l.length ≤ 4 ∧ m.length ≤ 4 ∧
         (if n = 3 then f = 0 ∨ f = 2 ∨ (f = 6 ∧ l ≠ []) else f ≤ 5 ∧ f ≠ 1) ∧
         -- keys ≥ 4 are real reverse_proxy handlers: only in the HTTP app, never "unknown"
-        m.all (fun g => g.key < 4 ∨ (n = 3 ∧ g.fault ≠ 1)) then some ⟨n, t, f, l, m⟩ else none
+        m.all (fun g => g.key < 4 ∨ (n = 3 ∧ g.fault ≠ 1)) ∧
+        -- the stuck stream is opened through a TCP listener of the app; one such handler per app
+        (m.filter (·.fault = 5)).length ≤ 1 ∧ (m.all (·.fault ≠ 5) ∨ l.any (· < 8))
+    then some ⟨n, t, f, l, m⟩ else none
   | _ => none
 
 def strictlySorted : List Nat → Bool
